@@ -540,8 +540,11 @@ func outerCancelWaiters(s *simrt.Sim) {
 		s.Fail("hang", "the first writer was never granted\n"+s.Dump())
 		return
 	}
+	// the waiters are released either by ending their contexts or (one time in three) by shutdown: Run's context is
+	// cancelled while they wait, queued or being served, and they come back with an error
+	viaShutdown := s.Choose(3, "viaShutdown") == 0
 	// optionally a second writer, which parks the Run loop until w0 unlocks
-	w1 := s.Choose(3, "secondwriter") == 0
+	w1 := !viaShutdown && s.Choose(3, "secondwriter") == 0
 	if w1 {
 		s.Go("w1", func() {
 			s.Sleep(time.Duration(s.Choose(3, "w1start")) * time.Millisecond)
@@ -579,6 +582,11 @@ func outerCancelWaiters(s *simrt.Sim) {
 	names = append(names, "canceller")
 	s.Go("canceller", func() {
 		s.Sleep(time.Duration(s.Choose(6, "cancelAt")) * time.Millisecond)
+		if viaShutdown {
+			stopRun()
+			s.Fault("shutdown")
+			return
+		}
 		for _, c := range cancels {
 			c()
 			s.Fault("ctx.cancel")
@@ -587,6 +595,10 @@ func outerCancelWaiters(s *simrt.Sim) {
 	})
 	if !s.Join(time.Hour, names...) {
 		qualifier = "outercancel"
+		if viaShutdown {
+			s.Fail("waiter-stuck", "lock.OuterCancel: Run's context was cancelled, yet a reader is still waiting in RLock while a writer holds the lock\n"+s.Dump())
+			return
+		}
 		s.Fail("waiter-stuck", "lock.OuterCancel: a reader whose context ended is still waiting in RLock while a writer holds the lock\n"+s.Dump())
 		return
 	}
@@ -599,6 +611,9 @@ func outerCancelWaiters(s *simrt.Sim) {
 	if !s.Join(time.Hour, ws...) {
 		s.Fail("hang", "outer-cancel writers did not finish\n"+s.Dump())
 		return
+	}
+	if viaShutdown {
+		return // (after shutdown Lock() takes the shutdown path: nothing to learn from a probe)
 	}
 	// nothing is held: a new writer does not have to wait out a grace period for a reader that gave up
 	s.Sleep(time.Millisecond)
